@@ -327,6 +327,12 @@ def run_check(prop: str, mod, tier: str, seed: int) -> int:
             mod.search(ctx)
     except LeanError as e:
         ctx.broke("Driver", str(e)[-800:])
+    except Exception:
+        import traceback
+
+        # the harness calls /repo's functions directly: an exception here means the code no longer has the
+        # shape the correspondence relies on (or /repo does not import): the tie is broken
+        ctx.broke("correspondence / search harness raised", traceback.format_exc()[-1500:])
     for d in ctx.disagreements[:5]:
         ctx.broke(f"correspondence op={d['op']}", d)
 
